@@ -54,3 +54,52 @@ def check(ck, F, rule, crates, floor):
                     else:
                         ck.bad(rule, key, "%s passes the buffer of one object with the bit offset of another (%s vs %s): wrong bits are read whenever the two are sliced differently"
                                % (fn["id"], g0, g1), b.loc(bb))
+
+
+# callee (generic-stripped suffix) -> [(buffer argument index, bit-offset argument index)]
+CROSS = {
+    "bit_mask::set_bits": [(0, 2), (1, 3)],
+}
+
+
+def check_cross(ck, F, rule, crates, floor):
+    ck.rule(rule, "for bit-copy helpers taking (write buffer, read buffer, write offset, read offset): an `X.offset()` argument sits in the offset slot that "
+            "belongs to the slot holding X's buffer (a swapped pair reads the source at the destination's position)", floor)
+    for cn in crates:
+        for fn in F.crate(cn).fns:
+            if "mir" not in fn:
+                continue
+            b = Body(fn)
+            for bb, t in b.calls():
+                n = flow.norm(callee(t) or "")
+                spec = None
+                for k, v in CROSS.items():
+                    if n == k or n.endswith("::" + k):
+                        spec = v
+                if not spec:
+                    continue
+                gs = []
+                for a in t["args"]:
+                    l = op_local(a)
+                    gs.append(getter_of(b, l) if l is not None else None)
+                key = "%s -> %s" % (flow.norm(fn["id"]), n.split("::")[-1])
+                bad = None
+                judged = False
+                for bi, oi in spec:
+                    if bi >= len(gs) or gs[bi] is None or gs[bi][0] not in BUF_GETTERS:
+                        continue
+                    obj = gs[bi][1]
+                    for p, g in enumerate(gs):
+                        if g and g[0] in OFF_GETTERS and g[1] == obj:
+                            judged = True
+                            if p != oi:
+                                bad = "offset of the object whose buffer is argument %d is passed as argument %d, expected %d" % (bi, p, oi)
+                    if oi < len(gs) and gs[oi] and gs[oi][0] in OFF_GETTERS and gs[oi][1] != obj:
+                        judged = True
+                        bad = "argument %d is the offset of a different object than the buffer in argument %d" % (oi, bi)
+                if bad:
+                    ck.bad(rule, key, "%s: %s" % (fn["id"], bad), b.loc(bb))
+                elif judged:
+                    ck.ok(rule, key, "buffer/offset slots agree")
+                else:
+                    ck.ok(rule, key, "arguments are not getter pairs (not judged)", nontrivial=False)
